@@ -274,9 +274,14 @@ pub fn gen_layer(rng: &mut Rng, o: &GenOpts, cluster_bits: u32, top: bool, idx_i
             }
         } else if rt_cover <= (16 << 20) && rng.chance(1, 3) {
             // bigger tables (e.g. 1 KiB clusters, where a table cluster is
-            // larger than a block): outgrown at 8 / 16 MiB of host file
+            // larger than a block): outgrown at 8 / 16 MiB of host file;
+            // now and then twice that, for a second relocation
             GROWTH_FULL.with(|f| f.set(true));
-            rt_cover - cs * rng.below(8)
+            if rng.chance(1, 16) {
+                2 * rt_cover + cs * rng.below(64)
+            } else {
+                rt_cover - cs * rng.below(8)
+            }
         } else {
             (rb_cover * rng.range(2, 5) + cs * rng.below(64)).min(4 << 20)
         };
@@ -772,7 +777,7 @@ pub fn gen_steps(rng: &mut Rng, cfg: &Cfg, o: &GenOpts) -> Vec<Step> {
         } else {
             12
         };
-        while pos < vend && steps.len() < 40 {
+        while pos < vend && steps.len() < if vend > (24 << 20) { 80 } else { 40 } {
             let n = if big {
                 rng.range(400, 2400)
             } else if full {
